@@ -206,6 +206,24 @@ def run_user(case, workdir, rec):
                     shutil.rmtree(out, ignore_errors=True)
                 if len(digests) > 1:
                     rec.fail("schedule_dependent", {"recipe": rname, "kept": kept}, "%d distinct output trees over schedules" % len(digests))
+    # history on ONE Chef object: cooking twice must give the same output tree
+    for serial in (True, False):
+        out = os.path.join(workdir, "ck_twice")
+        with vpool.controlled():
+            def twice():
+                c = Chef(path, recipe=os.path.join(workdir, "R3.py"), outfile=out, serial=serial, kept_fields="Z temp")
+                c.cook()
+                d1 = tree_digest(out)
+                c.cook()
+                return d1, tree_digest(out)
+            st, val = call(twice)
+        rec.exe([dh, "cook_twice", serial], nontrivial=True, trans=2)
+        sub = {"history": "two cook() calls on one Chef object", "serial": serial}
+        if st == "exc":
+            rec.fail("history_raised", sub, exc_text(val))
+        elif val[0] != val[1]:
+            rec.fail("history_dependent", sub, "second cook() wrote another tree")
+        shutil.rmtree(out, ignore_errors=True)
     if tree_digest(path) != before:
         rec.fail("input_modified", {}, "")
     rec.sample({"desc": desc, "recipes": sorted(USER), "kept": KEPT})
